@@ -11,13 +11,16 @@ def body(run):
     th = run.thorough()
 
     # the design-level runs do not depend on the driver: they run beside it (two chains)
+    heap = "8g" if th else None      # (an explicit, moderate heap: TLC's default of a quarter of the RAM makes the JVM the
+                                     #  first victim of the kernel's OOM killer on a machine that is shared)
+
     def design():
-        run.mc("MC_DataX", cfg="MC_DataX_thorough.cfg" if th else "MC_DataX.cfg", coverage=not th, workers=run.pick(4, 16))
+        run.mc("MC_DataX", cfg="MC_DataX_thorough.cfg" if th else "MC_DataX.cfg", coverage=not th, workers=run.pick(4, 16), heap=heap)
         if th:
-            run.mc("MC_DataX", cfg="MC_DataX_thorough3.cfg")
+            run.mc("MC_DataX", cfg="MC_DataX_thorough3.cfg", heap=heap)
 
     def design_keep():
-        run.mc("MC_DataXKeep", cfg="MC_DataXKeep_thorough.cfg" if th else "MC_DataXKeep.cfg", workers=run.pick(4, 16))
+        run.mc("MC_DataXKeep", cfg="MC_DataXKeep_thorough.cfg" if th else "MC_DataXKeep.cfg", workers=run.pick(4, 16), heap=heap)
 
     pool = ThreadPoolExecutor(max_workers=2)
     mcs = [pool.submit(design), pool.submit(design_keep)]
@@ -25,8 +28,8 @@ def body(run):
         out, meta = run.drive("c01")
         run.absorb(meta)
         if th:
-            # MC_DataX_thorough holds 65536-byte buffers in its states and needs TLC's large default heap: it runs beside the
-            # driver (little memory), and is over before the trace validators (one JVM per trace file) start
+            # the design runs (65536-byte buffers in the states of MC_DataX_thorough) run beside the driver, which needs
+            # little memory, and are over before the trace validators (one JVM per trace file) start
             for f in mcs:
                 f.result()
         run.validate(out, meta, max_findings=3)     # per trace file (five files): enough to show a defect, triage stays short
